@@ -277,6 +277,17 @@ class PredAbs:
     def before(self, elem):
         return self.flow.before(elem)
 
+    def edge_feasible(self, b, si):
+        """False if no abstract state can take the si-th successor edge of block b"""
+        st = self.flow.at_block_end(b)
+        if st is None:
+            return False
+        return self._edge(st, b, si) is not None
+
+    def reachable(self, elem):
+        st = self.flow.before(elem)
+        return st is not None and st != 0
+
     def entails(self, elem, formula):
         st = self.flow.before(elem)
         if st is None:
